@@ -50,9 +50,11 @@ ReqShapes == {
   ReqShape("r5", "cls", <<"p","q">>, 1, <<"k">>, {"k"}, FALSE, TRUE, {<<"q", D("q")>>, <<"k", Req>>}),
   [ReqShape("r6", "cls", <<"p","q">>, 1, <<"k">>, {"k"}, FALSE, FALSE, {<<"q", Req>>, <<"k", Req>>}) EXCEPT !.api = "external"],
   [ReqShape("r7", "cls", <<"p">>, 1, <<>>, {}, TRUE, TRUE, {<<"p", Req>>}) EXCEPT !.api = "register"],
-  [ReqShape("r8", "fn", <<"p","q">>, 1, <<>>, {}, FALSE, FALSE, {<<"q", Req>>}) EXCEPT !.api = "external"] }
+  [ReqShape("r8", "fn", <<"p","q">>, 1, <<>>, {}, FALSE, FALSE, {<<"q", Req>>}) EXCEPT !.api = "external"],
+  \* two keyword-only parameters: the list of missing names is in signature order whatever order they were found in
+  ReqShape("r9", "fn",  <<"p">>, 0, <<"q","k">>, {"k"}, FALSE, FALSE, {<<"k", Req>>}) }
 ReqRegs == { {c} : c \in ReqShapes }
-ReqRegsQuick == { {c} : c \in { x \in ReqShapes : x.sel[2] \in {"r2", "r3"} } }
+ReqRegsQuick == { {c} : c \in { x \in ReqShapes : x.sel[2] \in {"r2", "r3", "r9"} } }
 
 (* C11: allow / deny lists *)
 ListShape(tag, kind, vk, allow, deny) ==
